@@ -54,9 +54,9 @@ SPEC = {
                   "approved iff the uploader drops the program at every X, and lists/flags a counter iff the "
                   "uploader drops it at X = 0 from the whole week's report; what the uploader keeps of one program "
                   "does not depend on the other programs of the report or their order; builds are told apart by all "
-                  "five identity fields (Program path in full); the report view (newTelemetryReport) never calls an "
-                  "approved counter or stack excluded and lists exactly the dropped plain counters; its blindness to "
-                  "the Stacks of a report is exhibited as finding 19 (class viewer-report-stack-omitted). The models are tied to the code by differential execution against "
+                  "five identity fields (Program path in full); the report view (newTelemetryReport, after fix a1becfe) lists "
+                  "exactly the displayed names of the dropped counters and dropped stacks and never calls an approved "
+                  "one excluded; its oracle accepts the model. The models are tied to the code by differential execution against "
                   "the real createReport, validate, handleUpload, summary and newCounterFile.",
     "level_note": "Trusted: Coq kernel+VM, extraction, OCaml glue, Go harness/generators, the two helper processes "
                   "(injected exporter in package view; init hook in package main of telemetrygodev). "
